@@ -177,34 +177,87 @@ def body_gff3(ch, ctx):
     dbutil.close_db(db)
 
 
+def _gtf_callable(f):
+    if f.featuretype == "gene":
+        return "G:" + f.attributes["gene_id"][0]
+    if f.featuretype == "transcript":
+        return "T:" + f.attributes["transcript_id"][0]
+    return None
+
+
+GTF_SPECS = [("default", None), ("callable", _gtf_callable), ("dict_without_gene", {"exon": "exon_id"}), ("force_gff", None)]
+
+
 def body_gtf(ch, ctx):
     _, k = ctx.shard
     fts = [ch.choose("ft%d" % i, ("gene", "transcript", "exon")) for i in range(3)]
-    texts, exp, counters = [], [], {}
-    for i, ft in enumerate(fts):
-        texts.append('c1\ts\t%s\t%d\t%d\t.\t+\t.\tgene_id "g%d"; transcript_id "t%d";' % (ft, 10 * i + 1, 10 * i + 5, i, i))
-        if ft == "gene":
-            exp.append("g%d" % i)
-        elif ft == "transcript":
-            exp.append("t%d" % i)
-        else:
-            counters[ft] = counters.get(ft, 0) + 1
-            exp.append("%s_%d" % (ft, counters[ft]))
+    sname, spec = ch.choose("id_spec", GTF_SPECS)
     flags = dict(disable_infer_genes=bool(k & 1), disable_infer_transcripts=bool(k & 2))
+    texts, exp, counters = [], [], {}
+
+    def auto(base):
+        counters[base] = counters.get(base, 0) + 1
+        return "%s_%d" % (base, counters[base])
+
+    for i, ft in enumerate(fts):
+        texts.append('c1\ts\t%s\t%d\t%d\t.\t+\t.\tgene_id "g%d"; transcript_id "t%d"; exon_id "x%d";' % (ft, 10 * i + 1, 10 * i + 5, i, i, i))
+        if sname == "force_gff":
+            exp.append(auto(ft))                       # GFF3 rules with the default spec 'ID': no ID attribute anywhere
+        elif sname == "callable":
+            exp.append({"gene": "G:g%d" % i, "transcript": "T:t%d" % i}.get(ft) or auto(ft))
+        elif sname == "dict_without_gene":
+            exp.append("x%d" % i if ft == "exon" else auto(ft))
+        else:
+            exp.append({"gene": "g%d" % i, "transcript": "t%d" % i}.get(ft) or auto(ft))
+    # derived features (only exons give rise to them) take their key from the same id_spec
+    derived = []
+    if sname != "force_gff":
+        exon_idx = [i for i, ft in enumerate(fts) if ft == "exon"]
+        for i in exon_idx:
+            for kind, disabled, raw in (("transcript", flags["disable_infer_transcripts"], "t%d" % i), ("gene", flags["disable_infer_genes"], "g%d" % i)):
+                if disabled:
+                    continue
+                if sname == "callable":
+                    derived.append(("T:" if kind == "transcript" else "G:") + raw)
+                elif sname == "dict_without_gene":
+                    derived.append(None)             # auto-numbered; order of derivation is not demanded
+                else:
+                    derived.append(raw)
     wd = ctx.fresh_dir()
     path = dbutil.write_text(wd, "in.gtf", "\n".join(texts) + "\n")
-    db = gffutils.create_db(path, ":memory:", verbose=False, **flags)
+    kw = dict(flags)
+    if spec is not None:
+        kw["id_spec"] = spec
+    if sname == "force_gff":
+        kw["force_gff"] = True
+    db = gffutils.create_db(path, ":memory:", verbose=False, **kw)
     got = [f.id for f in db.all_features() if f.source != "gffutils_derived"]
-    ctx.sample(lambda: dict(format="gtf", lines=texts, flags=flags, expected_ids=exp))
+    got_derived = sorted(f.id for f in db.all_features() if f.source == "gffutils_derived")
+    ctx.sample(lambda: dict(format="gtf", lines=texts, flags=flags, id_spec=sname, expected_ids=exp, expected_derived=derived))
     ctx.nontrivial()
-    ctx.outcome(("gtf", tuple(fts), k))
-    ctx.check(got == exp, "keys-differ-from-id_spec", dict(spec="gtf-default"), lines=texts, got=got, expected=exp)
+    ctx.outcome(("gtf", tuple(fts), k, sname))
+    sig = dict(spec="gtf-" + sname)
+    ctx.check(got == exp, "keys-differ-from-id_spec", sig, lines=texts, got=got, expected=exp)
+    if None not in derived:
+        ctx.check(got_derived == sorted(derived), "derived-keys-differ-from-id_spec", sig, lines=texts, got=got_derived, expected=sorted(derived))
+    else:
+        ctx.check(len(got_derived) == len(derived) and all("_" in x for x in got_derived), "derived-keys-differ-from-id_spec", sig,
+                  lines=texts, got=got_derived, n_expected=len(derived))
     for key, text in zip(exp, texts):
         try:
             ok = str(db[key]).split("\t")[:5] == text.split("\t")[:5]
         except FeatureNotFoundError:
             ok = False
-        ctx.check(ok, "lookup-returns-other-feature", dict(spec="gtf-default"), key=key, line=text)
+        ctx.check(ok, "lookup-returns-other-feature", sig, key=key, line=text)
+    if sname in ("callable", "force_gff"):
+        for raw in ("g0", "t0", "g1", "t1"):
+            if raw in exp or raw in got_derived:
+                continue
+            try:
+                db[raw]
+                ctx.fail("absent-key-found", sig, key=raw)
+            except FeatureNotFoundError:
+                pass
 
 
 def body(ch, ctx):
